@@ -42,7 +42,13 @@ class BuiltA:
         self.files = G.render_A(self.A)
         self.work = F.Work({"A/" + k: v for k, v in self.files.items()})
         self.root = self.work.root / "A"
-        self.err, self.pre, self.modules_json, self.log, self.extra_pages = I.run_A(self.root, self.A)
+        self.err, self.pre, self.modules_json, self.log, self.extra_pages, order = I.run_A(self.root, self.A)
+        # the order of project.modules (file-set iteration order) is an input of the model
+        self.A["modules"].sort(key=lambda m: order.index(m["name"]) if m["name"] in order else 99)
+        if self.modules_json is not None:
+            self.stripped = self.root / "stripped"
+            self.stripped.mkdir()
+            (self.stripped / "modules.json").write_text(json.dumps(I.strip_json(self.modules_json)))
         self.doc = self.root / "doc"
 
     def close(self):
@@ -64,13 +70,13 @@ def round_case(b, remote):
     """FORD's own dict2obj over FORD's own obj2dict output, against the model's import of the model's export"""
     if remote:
         url = remote
-        payload = (b.doc / "modules.json").read_bytes()
+        payload = (b.stripped / "modules.json").read_bytes()
         p, outcome = I.load(url, b.root, payload)
         fixed = url if url.endswith("/") else url + "/"
         base = f"(BRemote {cs(fixed)})"
     else:
-        p, outcome = I.load("doc", b.root)
-        base = f"(BLocal {cs(str((b.root / 'doc').resolve()))})"
+        p, outcome = I.load("stripped", b.root)
+        base = f"(BLocal {cs(str((b.root / 'stripped').resolve()))})"
     return f"(CRound {b.term()} {base} {I.coq_impl_out(p, outcome)})", outcome
 
 
